@@ -115,6 +115,16 @@ Definition C01_graph_level_sorted_total := CGV.Compose.Statements.C01_cut_sorted
 Definition C01_skeleton_test_sound := CGV.Compose.Statements.C01_skeleton_test_sound.
 Definition C01_run_check_sound := CGV.Compose.Statements.C01_run_check_sound.
 Definition C01_run_fail_zero := CGV.Compose.Statements.C01_run_fail_zero.
+(** "in whatever order the base graph lists its nodes", for the graphs two whole resolve() calls RETURN: two base
+    graphs of the same cut that list the parts in different orders ([pperm]) give returned all-atom graphs related
+    by an explicit isomorphism - atom phi C1 x -> phi C2 x, i-th fresh hydrogen of x -> i-th fresh hydrogen of x,
+    composed with the two sorting permutations - that preserves adjacency, bond orders and the atoms' attributes
+    (statement [returned_iso_gen]).  Hypothesis kept: both calls return with the identity aromaticity transcript. *)
+Definition C01_base_order_returned := CGV.Compose.Statements.C01_base_order_returned.
+Definition C01_base_order_independent := CGV.Compose.Statements.C01_base_order_independent.
+Definition C01_returned_graphs_iso := CGV.Compose.Statements.C01_returned_graphs_iso.
+Definition C01_completed_iso := CGV.Compose.Statements.C01_completed_iso.
+Definition C01_all_atom_step_inv := CGV.Compose.Statements.C01_all_atom_step_inv.
 (** the label discipline of a well-formed cut meets the hypotheses of C01_bonding_step *)
 Definition C01_cut_tables_dedicated := CGV.Compose.Statements.C01_cut_tables_dedicated.
 Definition C01_cut_tables_disjoint := CGV.Compose.Statements.C01_cut_tables_disjoint.
@@ -132,4 +142,9 @@ Print Assumptions C01_graph_level_sorted_total.
 Print Assumptions C01_skeleton_test_sound.
 Print Assumptions C01_run_check_sound.
 Print Assumptions C01_run_fail_zero.
+Print Assumptions C01_base_order_returned.
+Print Assumptions C01_base_order_independent.
+Print Assumptions C01_returned_graphs_iso.
+Print Assumptions C01_completed_iso.
+Print Assumptions C01_all_atom_step_inv.
 Print Assumptions C01_hypothesis_test_sound.
